@@ -726,6 +726,26 @@ theorem open_total (fsel : FmtSel) (asel : AbcSel) (fname : Option Bytes) (src :
   | enoalphabet => exact Or.inr (Or.inr rfl)
   | fault => exact absurd h hnf
 
+/-- (2') **… also when the caller hands `esl_msafile_Open*` an `ESL_MSAFILE_FMTDATA`** (a PHYLIP name width `nw0`, any value): the
+    open path answers ok / enoformat / enoalphabet, never faults, and every read of the opened file is good -/
+theorem open_total_fmtd (nw0 : Nat) (fsel : FmtSel) (asel : AbcSel) (fname : Option Bytes) (src : Bytes) :
+    ((∃ o, openModelW nw0 fsel asel fname (splitLines src) = .ok o) ∨ openModelW nw0 fsel asel fname (splitLines src) = .enoformat ∨
+      openModelW nw0 fsel asel fname (splitLines src) = .enoalphabet) ∧
+    (∀ o, openModelW nw0 fsel asel fname (splitLines src) = .ok o → o.cfg.valid ∧ ∀ lines, Good (o.read lines).1) := by
+  refine ⟨?_, fun o _ => ⟨opened_cfg_valid o, opened_read_good o⟩⟩
+  have hnf := openModelW_no_fault nw0 fsel asel fname (splitLines src)
+  cases h : openModelW nw0 fsel asel fname (splitLines src) with
+  | ok o => exact Or.inl ⟨o, rfl⟩
+  | enoformat => exact Or.inr (Or.inl rfl)
+  | enoalphabet => exact Or.inr (Or.inr rfl)
+  | fault => exact absurd h hnf
+
+/-- non-vacuity: a PHYLIP file with 4-character names, declared format, name width 4 supplied by the caller: read with it
+    (with the default width 10 the same bytes are a format error) -/
+example : openModelW 4 (.decl .phylip) .text none (splitLines (str " 2 4\nab  ACGT\ncd  ACGT\n")) = .ok ⟨.phylip, none, 4⟩ := by decide +kernel
+example : ((Opened.read ⟨.phylip, none, 4⟩ (splitLines (str " 2 4\nab  ACGT\ncd  ACGT\n"))).1 matches .ok _) = true := by decide +kernel
+example : ((Opened.read ⟨.phylip, none, 0⟩ (splitLines (str " 2 4\nab  ACGT\ncd  ACGT\n"))).1 matches .eformat _) = true := by decide +kernel
+
 /-- (2) **format autodetection with alphabet guessing is total** (the instance the property names) -/
 theorem auto_total (fname : Option Bytes) (src : Bytes) :
     ((∃ o, openBytes .auto .guess fname src = .ok o) ∨ openBytes .auto .guess fname src = .enoformat ∨
